@@ -118,3 +118,34 @@ def option_is_some(c):
         if 0 in c[1] and 1 not in c[1]:
             return True
     return None
+
+
+def as_sum(t):
+    """(a, b) if t is a + b in any of its lowered forms: (AddWithOverflow(a, b)).0 (dev profile),
+    Add(a, b) (release profile) or the Some payload of checked_add(a, b) under `?`."""
+    t = look(t)
+    if t[0] == "field" and t[3] == "0" and t[1][0] == "bin" and t[1][1] in ("AddWithOverflow", "Add"):
+        return t[1][2], t[1][3]
+    if t[0] == "bin" and t[1] in ("Add", "AddUnchecked"):
+        return t[2], t[3]
+    if t[0] == "payload" and is_call(t[1], "ok_or", "ok_or_else") and t[1][2] and is_call(look(t[1][2][0]), "checked_add"):
+        ca = look(t[1][2][0])
+        return ca[2][0], ca[2][1]
+    return None
+
+
+def ok_payload_source(t):
+    """If t is the Ok/Some payload of X (written as `X?` or as a match binding), return X; else None."""
+    t = look(t)
+    if t[0] == "payload":
+        return look(t[1])
+    if t[0] == "field" and t[1][0] == "downcast" and t[1][2] in ("Ok", "Some", "Continue") and t[3] == "0":
+        return look(t[1][1])
+    return None
+
+
+def strip_map_err(t):
+    t = look(t)
+    while is_call(t, "map_err") and t[2]:
+        t = look(t[2][0])
+    return t
